@@ -18,7 +18,9 @@ ASSUMPTIONS = [
     "`rep_sync` / `run_rep_sync` (oracle review C10-M1) are computed by the harness on the two REAL states (engine vs replica, tracked order states with in-flight markers set aside); the spec demands 1 while EventOk / FreshCids held for the whole history of the case, and is silent afterwards",
     "the replica starts from the engine's snapshot; a snapshot that itself contains in-flight markers is outside synced_snapshot's hypothesis",
 ]
-SOURCE_FILES = ["barter/src/engine/audit/mod.rs", "barter/src/engine/audit/state_replica.rs", "barter/src/engine/run.rs", "barter/src/engine/mod.rs"]
+SOURCE_FILES = ["barter/src/engine/audit/mod.rs", "barter/src/engine/audit/state_replica.rs", "barter/src/engine/run.rs", "barter/src/engine/mod.rs",
+                "barter/src/engine/audit/context.rs", "barter/src/lib.rs", "barter/src/engine/clock.rs"]
+PREBUILD = [["python3", "tools/rust2lean_sm.py", "--require", "audit_seq"]]
 CLAIM = True
 TECHNIQUE = "Lean 4: simulation relation between engine and replica (replica = engine with in-flight markers stripped) preserved by every event, by case analysis on the order lifecycle + induction over histories; sequence-number and terminal-record lemmas by induction over the feed; correspondence with the real process_with_audit / run loops / StateReplicaManager"
 LEVEL_TEXT = ("Proof (logic) + correspondence (runtime). lean/BarterModel/Props/C10.lean proves for every feed and every strategy/risk behaviour: one record per processed event carrying that event, "
@@ -28,7 +30,12 @@ LEVEL_TEXT = ("Proof (logic) + correspondence (runtime). lean/BarterModel/Props/
               "skipping or rejecting (replica_accepts_engine_record), skips a repeated record (duplicate_skipped) and rejects a gap without advancing (gap_rejected).")
 LEVEL_NOTE = ("Trusted: Lean kernel; axioms propext/Classical.choice/Quot.sound; hand-written model tied to the code by sampled correspondence against the real engine, runners, channel and StateReplicaManager "
               "(200 quick / 5000 thorough). Hypotheses for order replication: exchange states only, FreshCids. Components not in the model (connectivity, balances, market data, statistics) are compared directly "
-              "between real engine and real replica.")
+              "between real engine and real replica. "
+              "Sequence::fetch_add, EngineMeta, Engine::{new, audit, audit_snapshot, reset_metadata}, process_with_audit (traits Processor / Auditor / EngineClock as records of their methods) and "
+              "StateReplicaManager::{new, validate_and_update_context} are additionally regenerated from the source by tools/rust2lean_sm.py (Generated/Machines4.lean, group audit_seq) and proved, for all engines / "
+              "clocks / events / replica states, to be the model's stamp-then-advance step, the model's processWithAudit (under the one hypothesis that the untranslated Engine::process is simulated by the model's "
+              "process and does not write meta.sequence) and the model's Replica.step after run's duplicate test (audit_sequence_agrees_with_source); the translator, its prelude and the reading of traits as "
+              "records are trusted for that tie. Not translated: Engine::process, the loops of run.rs and StateReplicaManager::run, update_from_event.")
 SUBCHECKS = ["C10C"]
 
 
